@@ -11,40 +11,63 @@ def main(plan_path, out_path):
         plan = json.load(f)
     paths = load_paths(plan)
     prog = open(out_path + ".progress", "w")
-    res = {}
-    for build in plan["paths"]:
-        ffi, get = paths[build][0], paths[build][1]
-        for tr in plan["cases"]:
+    outf = open(out_path, "a")
+    done = set(plan.get("done", []))
+    skip = set((c, p) for c, p in plan.get("skip", []))
+    dead = set(plan.get("dead", []))
+
+    def enc(ffi, v):
+        return enc_result(ffi, v, [], G.tla_type_of_ctype, G.img8, G.le_bytes)
+
+    def unusable(tr, what):
+        return [["error", what] if ev["op"] == "static" else {"exc": what, "ret": {"k": "none"}} for ev in tr["events"]]
+    for tr in plan["cases"]:
+        if tr["id"] in done:
+            continue
+        res = {}
+        for build in plan["paths"]:
+            if (tr["id"], build) in skip or build in dead:
+                res[build] = unusable(tr, "Crash")
+                continue
+            if isinstance(paths[build], Exception):
+                res[build] = unusable(tr, "LoadError:" + type(paths[build]).__name__)
+                continue
+            ffi, get, lib = paths[build]
             prog.write("%s %s\n" % (tr["id"], build))
             prog.flush()
-            get("reset_all")()
             obs = []
+            try:
+                get("reset_all")()
+            except Exception as e:
+                res[build] = unusable(tr, "FetchError:" + type(e).__name__)
+                continue
             for ev in tr["events"]:
                 op = ev["op"]
                 o = {"exc": "", "ret": {"k": "none"}}
                 try:
                     if op == "static":
                         if ev["what"] == "names":
-                            o = sorted(n for n in dir(paths[build][2]) if not n.startswith("_"))
+                            o = sorted(n for n in dir(lib) if not n.startswith("_"))
                         else:
                             o = [ffi.sizeof("struct P"), ffi.offsetof("struct P", "x")]
                     elif op == "readg":
-                        o["ret"] = enc_result(ffi, getattr(paths[build][2], ev["name"]), [], G.tla_type_of_ctype, G.img8, G.le_bytes)
+                        o["ret"] = enc(ffi, getattr(lib, ev["name"]))
                     elif op == "writeg":
-                        setattr(paths[build][2], ev["name"], build_arg(ffi, ev["desc"], [], []))
+                        setattr(lib, ev["name"], build_arg(ffi, ev["desc"], [], []))
                     elif op == "getg":
-                        o["ret"] = enc_result(ffi, get("get_%d" % ev["i"])(), [], G.tla_type_of_ctype, G.img8, G.le_bytes)
+                        o["ret"] = enc(ffi, get("get_%d" % ev["i"])())
                     elif op == "setg":
                         get("set_%d" % ev["i"])(build_arg(ffi, ev["desc"], [], []))
                     elif op == "readc":
-                        o["ret"] = enc_result(ffi, getattr(paths[build][2], ev["name"]), [], G.tla_type_of_ctype, G.img8, G.le_bytes)
+                        o["ret"] = enc(ffi, getattr(lib, ev["name"]))
                 except Exception as e:
                     o = {"exc": type(e).__name__, "ret": {"k": "none"}} if op != "static" else ["error", type(e).__name__]
                 obs.append(o)
-            res.setdefault(str(tr["id"]), {})[build] = obs
-    with open(out_path + ".tmp", "w") as f:
-        json.dump(res, f)
-    os.rename(out_path + ".tmp", out_path)
+            res[build] = obs
+        outf.write(json.dumps({"id": tr["id"], "obs": res}) + "\n")
+        outf.flush()
+    outf.close()
+    open(out_path + ".ok", "w").close()
 
 
 if __name__ == "__main__":
